@@ -353,7 +353,7 @@ def r02_10(ctx):
     setters = collections.defaultdict(set)
     for b, i, s in fn.assigns():
         rv = s["rv"]
-        if not s["lhs"][1] and fn.locals[s["lhs"][0]]["ty"] == "bool" and rv["k"] == "use" and rv["op"]["k"] == "const" and op_int(rv["op"]) == 1 and fn.locals[s["lhs"][0]].get("name"):
+        if not s["lhs"][1] and fn.locals[s["lhs"][0]]["ty"] == "bool" and rv["k"] == "use" and rv["op"]["k"] == "const" and op_int(rv["op"]) == 1:
             setters[s["lhs"][0]].add(b)
     flag = None
     for l, bs in setters.items():
